@@ -199,4 +199,19 @@ func init() {
 	// ---------------- C07.R6
 	mut("C07", "the free writer stays silent for frames without free channels", "core/pkg/distribution/framer/writer/free.go",
 		"		); err != nil || !w.sync {\n			return\n		}", "		); err != nil || !w.sync || req.Frame.Empty() {\n			return\n		}", "C07.R6.ack")
+
+	// ---------------- C18
+	const rb = "core/pkg/service/access/rbac/service.go"
+	mut("C18", "an instance policy covers every key of its type", rb,
+		"				} else if policyObj.Type == requestedObj.Type &&\n					policyObj.Key == requestedObj.Key {", "				} else if policyObj.Type == requestedObj.Type {", "C18.R2.cover")
+	mut("C18", "an uncovered object is skipped instead of refused", rb,
+		"		if !found {\n			return false\n		}", "		if !found {\n			continue\n		}", "C18.R2.cover")
+	mut("C18", "policies are matched without looking at the action", rb,
+		"			if !hasAction {\n				continue\n			}", "			_ = hasAction", "C18.R2.cover")
+	mut("C18", "the flag survives from one object to the next", rb,
+		"	for _, requestedObj := range req.Objects {\n		found := false", "	found := false\n	for _, requestedObj := range req.Objects {", "C18.R2.cover")
+	mut("C18", "a subject with any policy is let through", rb,
+		"	if allowRequest(req, v) {\n		return nil\n	}", "	if allowRequest(req, v) || len(req.Objects) == 0 {\n		return nil\n	}", "C18.R1.gate")
+	mut("C18", "policies are looked up for the first requested object instead of the subject", rb,
+		"	v, err := e.retrievePolicies(ctx, req.Subject)", "	v, err := e.retrievePolicies(ctx, req.Objects[0])", "C18.R1.gate")
 }
